@@ -455,6 +455,9 @@ pub fn run(ctx: &Ctx) -> Report {
         Item::Res("A".into()),
         Item::Align("(B - A) * 8".into()),
         Item::Align("k * 8".into()),
+        // operands that are negative as long as the label is not known yet (a guess of 0)
+        Item::Res("B - 0x14".into()),
+        Item::Align("(A - 0x12) * 8".into()),
         Item::Const("k".into(), "B - A".into()),
         Item::Instr("ldw B".into()),
         Item::Instr("ld A".into()),
